@@ -259,7 +259,11 @@ func GenFS(r *core.Rand, dir string, cfg *FSCfg) *FSLayout {
 				ip = imp + "/" + sub
 			}
 			writeFile(md+"/"+rel, "package x\n")
-			addFrame(FSFrame{Remote: md + "/" + rel, Local: md + "/" + rel, Rel: rel, Import: ip, Class: FSGoMod, Exists: true, Pkg: ip, Explains: md})
+			pk := ip
+			if sub == "" && r.Bool() {
+				pk = "main" // a command at the root of its module: the symbol says main, the import path is the module's
+			}
+			addFrame(FSFrame{Remote: md + "/" + rel, Local: md + "/" + rel, Rel: rel, Import: ip, Class: FSGoMod, Exists: true, Pkg: pk, Explains: md})
 		}
 		if r.Chance(1, 3) {
 			// a sibling module whose directory name has this module's directory as a string prefix ("/m" vs "/m2")
